@@ -278,6 +278,14 @@ var current *Exec
 
 var runStartHooks []func()
 
+var idleHooks []func() bool
+
+// OnIdle registers a function the scheduler calls when no thread is enabled (before declaring a
+// deadlock); it returns true if it made something enabled (e.g. the virtual clock fired a timer).
+//
+//go:norace
+func OnIdle(f func() bool) { idleHooks = append(idleHooks, f) }
+
 // OnRunStart registers a function that resets package-level shim state before every execution.
 //
 //go:norace
@@ -560,6 +568,22 @@ func Run(chooser Chooser, o RunOpts, main func()) (res Result) {
 			break
 		}
 		if len(enabled) == 0 {
+			progressed := false
+			e.cur = nil
+			for _, h := range idleHooks {
+				if h() {
+					progressed = true
+					break
+				}
+			}
+			if progressed {
+				e.Steps++
+				if e.Steps < e.MaxSteps {
+					continue
+				}
+				e.Horizon = true
+				break
+			}
 			e.Deadlock = true
 			break
 		}
